@@ -1,11 +1,14 @@
 #!/usr/bin/env python3
-"""Rewrites DESIGN.md §11.7 (counts per property, complete table of seeded changes) from
+"""Rewrites DESIGN.md §11.7 (and only it: §11.8 and later sections are kept) (counts per property, complete table of seeded changes) from
 evidence/*.json and seeded/*/meta.json."""
 import subprocess, os
 V = os.path.dirname(os.path.dirname(os.path.abspath(__file__)))
 p = os.path.join(V, "DESIGN.md"); s = open(p).read()
 i = s.find("\n### 11.7 Final state")
+tail = ""
 if i >= 0:
+    j = s.find("\n### 11.8", i)  # later sections are kept as they are
+    tail = s[j:] if j >= 0 else ""
     s = s[:i]
 tab = subprocess.check_output(["python3", os.path.join(V, "tools/seedtable.py")], text=True)
 ev = subprocess.check_output(["python3", os.path.join(V, "tools/evtable.py")], text=True)
@@ -24,7 +27,7 @@ over `evidence/*.json`; quick tier, seed 1 unless stated):
 
 %s
 Seeded changes kept in `/verif/seeded/` (`tools/seedtable.py` over
-`seeded/*/meta.json`; rounds 1-4): %d changes, of which %d are reported with a
+`seeded/*/meta.json`; rounds 1-5): %d changes, of which %d are reported with a
 failing input, %d through a broken theorem, translator or correspondence without
 one (`no-failing-input-found`), %d are missed and %d could not be evaluated (the
 patch no longer applies after a later fix of the same lines). The verdict is that
@@ -37,5 +40,5 @@ repaired, C17-r3-2 whose trigger is an unwritable stderr) are not kept.
 
 %s
 ''' % (ev, n, det, nfi, mis, ne, tab)
-open(p, "w").write(s.rstrip("\n") + "\n" + add)
+open(p, "w").write(s.rstrip("\n") + "\n" + add.rstrip("\n") + "\n" + (tail.rstrip("\n") + "\n" if tail else ""))
 print(n, det, nfi, mis, ne)
